@@ -349,7 +349,8 @@ def fire_chain(I, d, result, start=0):
             result = failure_stub(pr.exc if not isinstance(pr.exc, SObj) else pr.exc, pr.cls) if not isinstance(pr.exc, SObj) else _sobj_failure(pr)
         if isinstance(result, DStub):
             if result.state == "pending":
-                raise Undecided("callback returned a pending Deferred")
+                d.state = "waiting"          # the chain is paused on the inner Deferred; nothing further runs now
+                return result, ran
             inner, _ = fire_chain(I, result, result.value if result.state == "succeeded" else result.value)
             result = inner
     d.state = "failed" if is_failure(result) else "succeeded"
